@@ -217,6 +217,8 @@ def rule_post(ctx, rep):
             rep.bad("C18.post", tag, "after %s, %s is %s (specified: %s): the list's back/forward links are inconsistent for the next update" % (tag, k, v, want.get(k, "untouched")), [site.where()])
 
 
+META["explanation"] += " " + 'Also (round 14): rcu_assign_pointer / rcu_dereference in a caller compiled with -std=gnu99 keep their compiler barriers (C18.compat).'
+
 RULES = [
     ("C18.inv", rule_inv),
     ("C18.pub", rule_pub),
